@@ -160,3 +160,82 @@ Theorem C08_set_relation_q : forall w A f rid T w2 h evs,
     omap (pos_ent w2) (enum (q_segs q)) = table_ents w (retargeted T w (get_tables w f)).
 Proof. exact batch_set_relation_q_visits. Qed.
 Print Assumptions C08_set_relation_q.
+
+(** ** Registered filters as batch arguments, and batch operations at history level.
+
+    A registered filter hands the batch its cached table list, whose ORDER (creation / re-use
+    order) differs from the graph order an unregistered filter is evaluated in.  The batch
+    call through the registered filter nevertheless refines the abstract store with the same
+    update applied to the same entities as the call through the unregistered filter
+    ([C08_batch_exchange_cached], [C08_batch_set_relation_cached]; RemoveEntities:
+    [C08_batch_remove_cached]). *)
+From Arche Require Import Proofs.BatchCached Proofs.BatchHist Proofs.IlenInv Proofs.BatchRemove.
+Theorem C08_batch_exchange_cached : forall w A id ce add rem rel w' n evs,
+  R w A -> cache_ok w -> cache_get w id = Some ce ->
+  Forall (fun id => id < length (as_reg A)) add -> (add <> [] \/ rem <> []) ->
+  op_batch_exchange w (FCached id) add rem rel = (w', Ok (VNat n), evs) ->
+  let L := table_ents w (World.get_tables w (c_filter ce)) in
+  n = length L /\ (forall e, e ∈ L <-> (e ∈ as_live A /\ ent_matches w (c_filter ce) e)) /\
+  R w' (a_map A L (fun a => a_exchange (as_reg A) a add rem rel)) /\ cache_ok w'.
+Proof. exact batch_exchange_cached. Qed.
+
+Theorem C08_batch_set_relation_cached : forall w A id ce rid T w' n evs,
+  R w A -> cache_ok w -> cache_get w id = Some ce ->
+  op_batch_set_relation w (FCached id) rid T = (w', Ok (VNat n), evs) ->
+  let L := table_ents w (World.get_tables w (c_filter ce)) in
+  n = length L /\ (forall e, e ∈ L <-> (e ∈ as_live A /\ ent_matches w (c_filter ce) e)) /\
+  R w' (a_map A L (fun a => mkA (a_mask a) T (a_vals a))) /\ cache_ok w'.
+Proof. exact batch_set_relation_cached. Qed.
+
+Theorem C08_batch_remove_cached : forall w A id ce w' n evs,
+  R w A -> cache_ok w -> cache_get w id = Some ce ->
+  (forall e, e ∈ table_ents w (c_tables ce) -> (egen e < gen_max)%N) ->
+  op_remove_entities w (FCached id) = (w', Ok (VNat n), evs) ->
+  let L := table_ents w (c_tables ce) in
+  n = length L /\ NoDup L /\ (forall e, e ∈ L <-> (e ∈ as_live A /\ ent_matches w (c_filter ce) e)) /\
+  R w' (a_remove_all A L) /\ cache_ok w'.
+Proof. exact batch_remove_cached. Qed.
+
+Example C08_cached_order_differs :
+  let w := run (world_init 2 2 64) demo_cached_ops in
+  map c_tables (w_cache w) = [[2; 3; 4]] /\ World.get_tables w (FAll 1) = [2; 4; 3] /\
+  table_ents w [2; 3; 4] = [mkE 3 0; mkE 4 0; mkE 5 0] /\
+  snd (fst (step w (OBatchExchange false (FCached 0) [] [0] None))) = Ok (VNat 3) /\
+  snd (fst (step w (OBatchRemove (FCached 0)))) = Ok (VNat 3).
+Proof. exact demo_cached. Qed.
+
+(** Every history of the single-entity core, Reset, filter (un)registration AND the batch
+    operations (exchange family, SetRelation, RemoveEntities, NewBatch; unregistered or
+    registered filter arguments) that return normally keeps the refinement relation to the
+    abstract store, in which a batch call is the single-entity update applied to exactly the
+    entities the filter selects IN THE ABSTRACT STORE ([a_sel], characterised by
+    [C08_abstract_selection]). *)
+Theorem C08_abstract_selection : forall w A f, R w A ->
+  forall e, e ∈ a_sel A f <-> (e ∈ as_live A /\ ent_matches w f e).
+Proof. exact a_sel_exact. Qed.
+
+Theorem C08_batch_step : forall w A o,
+  inv3 w A -> op_pre4 w A o -> inv3 (fst (fst (step w o))) (astep_b w A o (snd (fst (step w o)))).
+Proof. exact batch_step. Qed.
+
+Theorem C08_every_history_with_batches : forall ops w A,
+  inv3 w A -> pre_run4 w A ops -> inv3 (run w ops) (arun4 w A ops).
+Proof. exact batch_history. Qed.
+
+Example C08_history_nonvacuous :
+  pre_run4 (world_init 2 2 64) a_init demo_bh_ops /\
+  inv3 (run (world_init 2 2 64) demo_bh_ops) (arun4 (world_init 2 2 64) a_init demo_bh_ops) /\
+  let A := arun4 (world_init 2 2 64) a_init demo_bh_ops in
+  as_live A = [mkE 5 0; mkE 4 0; mkE 3 0; mkE 2 0; mkE 1 0] /\
+  assoc_get (mkE 3 0) (as_ents A) = Some (mkA 2 (mkE 2 0) []) /\
+  assoc_get (mkE 5 0) (as_ents A) = Some (mkA 2 (mkE 2 0) []) /\
+  assoc_get (mkE 4 0) (as_ents A) = Some (mkA 4 ezero []) /\
+  length (as_issued A) = 8.
+Proof. split; [exact demo_bh_pre|]. split; [exact demo_bh_refines|exact demo_bh_result]. Qed.
+
+Print Assumptions C08_batch_exchange_cached.
+Print Assumptions C08_batch_set_relation_cached.
+Print Assumptions C08_batch_remove_cached.
+Print Assumptions C08_abstract_selection.
+Print Assumptions C08_batch_step.
+Print Assumptions C08_every_history_with_batches.
